@@ -12,9 +12,9 @@ mv "$demo" /tmp/demo_aside.go
 go build ./... || { echo "BUILD FAILS"; exit 1; }
 go test -count=1 ./pkg/... > /tmp/confirm_suite.log 2>&1; suite=$?
 mv /tmp/demo_aside.go "$demo"
-go test -count=1 -run "$rx" ./$tdir/ > /tmp/confirm_with.log 2>&1; with=$?
+go test -count=1 ./$tdir/ $rx > /tmp/confirm_with.log 2>&1; with=$?
 git stash -q -- $(git diff --name-only)
-go test -count=1 -run "$rx" ./$tdir/ > /tmp/confirm_without.log 2>&1; without=$?
+go test -count=1 ./$tdir/ $rx > /tmp/confirm_without.log 2>&1; without=$?
 git stash pop -q
 echo "suite_with_change=$suite demo_with_change=$with demo_without_change=$without"
 if [ $suite -eq 0 ] && [ $with -ne 0 ] && [ $without -eq 0 ]; then
@@ -22,5 +22,5 @@ if [ $suite -eq 0 ] && [ $with -ne 0 ] && [ $without -eq 0 ]; then
   cp SEED/patch.diff $d/patch.diff; cp "$demo" $d/$(basename $demo); [ -f SEED/notes.md ] && cp SEED/notes.md $d/notes.md
   echo "CONFIRMED -> $d"
 else
-  echo "NOT CONFIRMED"; tail -5 /tmp/confirm_suite.log /tmp/confirm_with.log /tmp/confirm_without.log
+  echo "NOT CONFIRMED"; for f in /tmp/confirm_suite.log /tmp/confirm_with.log /tmp/confirm_without.log; do echo "-- $f"; tail -5 $f; done
 fi
